@@ -410,11 +410,12 @@ def Db.revert (d : Db) (r : Ref) : Res × Db :=
 
 /-! ### conflicted cherry-pick / revert with `@@dolt_allow_commit_conflicts = 1`, then `--abort` -/
 
-/-- the working set a conflicted cherry-pick / revert leaves behind: merge state recording the
-pre-merge working root; the working root itself holds conflict artifacts and is never read by the
-model (`mid`), only `--abort` is defined on it. -/
-def Db.startConflicted (d : Db) (kind : MergeKind) (mid : Root) : Db :=
-  d.setWs { working := mid, staged := d.ws.staged, merge := some ⟨d.ws.working, d.headId, kind⟩ }
+/-- the working set a conflicted cherry-pick / revert leaves behind (`StartCherryPick` /
+`StartRevert`): a merge state recording the pre-merge working root and head; the working and staged
+roots then hold whatever the partial merge wrote (`midW`, `midS` — conflict artifacts included; the
+model never reads them, only `--abort` is defined on such a state). -/
+def Db.startConflicted (d : Db) (kind : MergeKind) (midW midS : Root) : Db :=
+  d.setWs { working := midW, staged := midS, merge := some ⟨d.ws.working, d.headId, kind⟩ }
 
 /-- `merge.AbortMerge` (+ `AbortRevert`'s head reset): working := pre-merge working, staged := HEAD -/
 def Db.abortMerge (d : Db) : Res × Db :=
@@ -423,6 +424,17 @@ def Db.abortMerge (d : Db) : Res × Db :=
   | some ms =>
     let d1 := d.setHead ms.preHead
     (.ok, d1.setWs ⟨ms.preWorking, d1.headRoot, none⟩)
+
+/-- cherry-pick with `@@dolt_allow_commit_conflicts = 1`, `--abort` after a data conflict -/
+def Db.cherryPickAbort (d : Db) (r : Ref) : Res × Db :=
+  match d.cherryPick r with
+  | (.err .conflict, _) => (.err .conflict, ((d.startConflicted .cherry d.ws.working d.ws.staged).abortMerge).2)
+  | x => x
+
+def Db.revertAbort (d : Db) (r : Ref) : Res × Db :=
+  match d.revert r with
+  | (.err .conflict, _) => (.err .conflict, ((d.startConflicted .revert d.ws.working d.ws.staged).abortMerge).2)
+  | x => x
 
 /-! ### reset -/
 
